@@ -2,11 +2,11 @@ package sx
 
 import (
 	"fmt"
-	"os"
 	"go/constant"
 	"go/token"
 	"go/types"
 	"math/big"
+	"os"
 	"sort"
 	"strings"
 	"time"
@@ -65,52 +65,52 @@ type Exec struct {
 	depth    int
 	steps    int
 
-	hashes   []*HashApp
-	groupIv  map[string]*smt.Term
-	groupRev map[int]*GroupFacet // value term of a group element -> its facet
-	primeTerms map[int]bool       // terms assumed prime (assumePrime)
-	modKinds map[int]*ModInfo
-	atoms    map[string]bool
-	inInit   bool
+	hashes          []*HashApp
+	groupIv         map[string]*smt.Term
+	groupRev        map[int]*GroupFacet // value term of a group element -> its facet
+	primeTerms      map[int]bool        // terms assumed prime (assumePrime)
+	modKinds        map[int]*ModInfo
+	atoms           map[string]bool
+	inInit          bool
 	xmlElementTexts []string // element texts for the modelled xml.Decoder.DecodeElement (key stub)
 
 	// results of this path
-	findings     []*Finding
-	inconclusive []string
-	assertsSeen  map[string]int // label -> number discharged on this path
-	reached      map[string]bool
-	funcs        map[string]bool
-	stubs        map[string]bool
-	nFinal       int
-	nNontrivial  int
-	samples      []string
-	native       map[string]interface{} // harness scratch
-	sched        *scheduler
-	curPos       string
-	hashAx       []*smt.Term
-	hashAxPc     int
-	hashPairN    int
-	hashPairAx   []*smt.Term
-	oracleSeen   map[int]bool
-	oracleVars   []*smt.Term
-	oraclePcN    int
-	birth        map[string]int
-	birthSeq     int
-	maxBirthMemo map[int]int
-	lastNow      *smt.Term
-	draws        []*smt.Term
-	blobs        map[*ArrObj]BigVal
-	digests      map[*ArrObj]*smt.Term
-	signedMsgs   map[*ArrObj]*SignedMsg
-	derBlobs     map[*ArrObj][]derElem
-	fs           map[string]*fsFile
-	fileContent  map[string]string
-	u64          map[*Cell]u64tag
-	umaskT       *smt.Term
-	digestVals   map[*Array]*smt.Term
-	initDone     map[*ssa.Package]bool
-	merging      bool
-	trace        []string
+	findings      []*Finding
+	inconclusive  []string
+	assertsSeen   map[string]int // label -> number discharged on this path
+	reached       map[string]bool
+	funcs         map[string]bool
+	stubs         map[string]bool
+	nFinal        int
+	nNontrivial   int
+	samples       []string
+	native        map[string]interface{} // harness scratch
+	sched         *scheduler
+	curPos        string
+	hashAx        []*smt.Term
+	hashAxPc      int
+	hashPairN     int
+	hashPairAx    []*smt.Term
+	oracleSeen    map[int]bool
+	oracleVars    []*smt.Term
+	oraclePcN     int
+	birth         map[string]int
+	birthSeq      int
+	maxBirthMemo  map[int]int
+	lastNow       *smt.Term
+	draws         []*smt.Term
+	blobs         map[*ArrObj]BigVal
+	digests       map[*ArrObj]*smt.Term
+	signedMsgs    map[*ArrObj]*SignedMsg
+	derBlobs      map[*ArrObj][]derElem
+	fs            map[string]*fsFile
+	fileContent   map[string]string
+	u64           map[*Cell]u64tag
+	umaskT        *smt.Term
+	digestVals    map[*Array]*smt.Term
+	initDone      map[*ssa.Package]bool
+	merging       bool
+	trace         []string
 	mergeCellMark int
 }
 
@@ -211,6 +211,7 @@ func (ex *Exec) feasible(c *smt.Term) bool {
 	if c.IsFalse() {
 		return false
 	}
+	ex.abortIfHopeless()
 	as := append(smt.Slice(ex.constraints(), c), c)
 	key := "F" + pcKey(as, nil)
 	if r, ok := ex.P.cacheGet(key); ok {
@@ -416,7 +417,7 @@ func (ex *Exec) global(g *ssa.Global) *Cell {
 	}
 	// lazy package initialisation: run the package's init the first time one of its
 	// globals is touched (its init calls the inits of its dependencies itself)
-	if g.Pkg != nil && ex.P.isTarget(g.Pkg.Pkg.Path()) && !ex.initDone[g.Pkg] && !strings.HasPrefix(g.Name(), "init$") {
+	if g.Pkg != nil && (ex.P.isTarget(g.Pkg.Pkg.Path()) || initFromSource[g.Pkg.Pkg.Path()]) && !ex.initDone[g.Pkg] && !strings.HasPrefix(g.Name(), "init$") {
 		ex.initDone[g.Pkg] = true
 		if init := g.Pkg.Func("init"); init != nil {
 			saved := ex.inInit
@@ -430,7 +431,7 @@ func (ex *Exec) global(g *ssa.Global) *Cell {
 			return c
 		}
 	}
-	if g.Pkg != nil && !ex.P.isTarget(g.Pkg.Pkg.Path()) {
+	if g.Pkg != nil && !ex.P.isTarget(g.Pkg.Pkg.Path()) && !initFromSource[g.Pkg.Pkg.Path()] {
 		// external package variable: modelled lazily
 		c := ex.cellOf(ex.externGlobal(g))
 		ex.globals[g] = c
@@ -443,6 +444,10 @@ func (ex *Exec) global(g *ssa.Global) *Cell {
 	ex.globals[g] = c
 	return c
 }
+
+// initFromSource: standard-library packages that are interpreted from source *and* whose package
+// initialiser is run (their tables are built by it); the inits of their own dependencies are skipped.
+var initFromSource = map[string]bool{"encoding/base64": true}
 
 var traceCalls = os.Getenv("GSX_TRACE") == "calls"
 
@@ -516,7 +521,6 @@ func (ex *Exec) zeroResults(sig *types.Signature) Value {
 	}
 	return ex.zero(r)
 }
-
 
 func (ex *Exec) interpret(fn *ssa.Function, args []Value) Value {
 	ex.depth++
@@ -735,7 +739,13 @@ func (ex *Exec) eval(fr *frame, v ssa.Value) Value {
 	case *ssa.Index:
 		return ex.index(ex.get(fr, x.X), term(ex.get(fr, x.Index)))
 	case *ssa.IndexAddr:
-		return ex.indexAddr(ex.get(fr, x.X), term(ex.get(fr, x.Index)))
+		idx := term(ex.get(fr, x.Index))
+		if !idx.IsConst() {
+			if p, ok := ex.symbolicElemRead(fr, x, idx); ok {
+				return p
+			}
+		}
+		return ex.indexAddr(ex.get(fr, x.X), idx)
 	case *ssa.Lookup:
 		return ex.lookup(ex.get(fr, x.X), ex.get(fr, x.Index), x.CommaOk, x.Type())
 	case *ssa.Slice:
@@ -848,6 +858,177 @@ func (ex *Exec) concretizeIdx(i *smt.Term, n int) int {
 		conds[k] = smt.Eq(i, smt.I64(int64(k)))
 	}
 	return ex.choose(conds)
+}
+
+// symbolicElemRead: &a[i] with a symbolic i whose only use is the load that follows it (a table
+// look-up, as in encoding/base64) over elements that are all integer terms: instead of forking on
+// the index the address of a fresh read-only cell holding ite(i = 0, a[0], ite(i = 1, a[1], ...))
+// is returned. Anything else (stores through the address, non-scalar elements) forks as before.
+func (ex *Exec) symbolicElemRead(fr *frame, x *ssa.IndexAddr, i *smt.Term) (Value, bool) {
+	refs := x.Referrers()
+	if refs == nil || len(*refs) != 1 {
+		return nil, false
+	}
+	ld, ok := (*refs)[0].(*ssa.UnOp)
+	if !ok || ld.Op != token.MUL || ld.Block() != x.Block() {
+		return nil, false
+	}
+	instrs := x.Block().Instrs
+	next := false
+	for k, in := range instrs {
+		if in == ssa.Instruction(x) && k+1 < len(instrs) && instrs[k+1] == ssa.Instruction(ld) {
+			next = true
+		}
+	}
+	if !next {
+		return nil, false
+	}
+	var cells []*Cell
+	switch a := ex.get(fr, x.X).(type) {
+	case Slice:
+		if a.A == nil {
+			return nil, false
+		}
+		cells = a.A.E[a.Off : a.Off+a.Len]
+	case Pointer:
+		if a.C == nil {
+			return nil, false
+		}
+		ao, ok := a.C.V.(*ArrObj)
+		if !ok {
+			return nil, false
+		}
+		cells = ao.E
+	default:
+		return nil, false
+	}
+	if len(cells) < 2 || len(cells) > 256 {
+		return nil, false
+	}
+	for _, c := range cells {
+		if t, ok := c.V.(*smt.Term); !ok || t.Sort != smt.Int {
+			return nil, false
+		}
+	}
+	// a look-up by the result of another look-up (decodeMap[encode[j]]): compose the tables
+	if i.Op == smt.OIte {
+		allConst := true
+		for _, c := range cells {
+			if !c.V.(*smt.Term).IsConst() {
+				allConst = false
+			}
+		}
+		if allConst {
+			if v, ok := mapIteLeaves(i, func(k int64) *smt.Term {
+				if k < 0 || k >= int64(len(cells)) {
+					return nil
+				}
+				return cells[k].V.(*smt.Term)
+			}, 0); ok {
+				if id, ok := identityChain(v); ok {
+					v = id
+				}
+				ex.cellSeq++
+				return Pointer{C: &Cell{ID: ex.cellSeq, V: v}}, true
+			}
+		}
+	}
+	ex.panicIf(smt.Or(smt.Lt(i, smt.I64(0)), smt.Ge(i, smt.I64(int64(len(cells))))), "index out of range [%s] with length %d", i, len(cells))
+	// the identity table over the index's whole range is the index itself
+	if i.Lo != nil && i.Hi != nil && i.Lo.Sign() >= 0 && i.Hi.IsInt64() && i.Hi.Int64() < int64(len(cells)) {
+		ident := true
+		for k := int64(0); k <= i.Hi.Int64(); k++ {
+			if v, ok := cells[k].V.(*smt.Term).ConstInt64(); !ok || v != k {
+				ident = false
+				break
+			}
+		}
+		if ident {
+			ex.cellSeq++
+			return Pointer{C: &Cell{ID: ex.cellSeq, V: i}}, true
+		}
+	}
+	v := cells[len(cells)-1].V.(*smt.Term)
+	for k := len(cells) - 2; k >= 0; k-- {
+		v = smt.Ite(smt.Eq(i, smt.I64(int64(k))), cells[k].V.(*smt.Term), v)
+	}
+	ex.cellSeq++
+	return Pointer{C: &Cell{ID: ex.cellSeq, V: v}}, true
+}
+
+// mapIteLeaves rebuilds an if-then-else tree whose leaves are integer constants with f applied to
+// every leaf; ok = false if a leaf is not a constant, f refuses it, or the tree is too deep.
+func mapIteLeaves(t *smt.Term, f func(int64) *smt.Term, depth int) (*smt.Term, bool) {
+	if depth > 300 {
+		return nil, false
+	}
+	if v, ok := t.ConstInt64(); ok {
+		r := f(v)
+		return r, r != nil
+	}
+	if t.Op != smt.OIte || len(t.Args) != 3 {
+		return nil, false
+	}
+	a, ok := mapIteLeaves(t.Args[1], f, depth+1)
+	if !ok {
+		return nil, false
+	}
+	b, ok := mapIteLeaves(t.Args[2], f, depth+1)
+	if !ok {
+		return nil, false
+	}
+	return smt.Ite(t.Args[0], a, b), true
+}
+
+// identityChain: ite(j = 0, 0, ite(j = 1, 1, ... n)) over a j whose interval is [0, n] is j itself
+// (what composing a decoding table with its encoding table gives).
+func identityChain(t *smt.Term) (*smt.Term, bool) {
+	var j *smt.Term
+	seen := map[int64]bool{}
+	cur := t
+	for depth := 0; depth < 300; depth++ {
+		if v, ok := cur.ConstInt64(); ok {
+			if j == nil || j.Lo == nil || j.Hi == nil || !j.Hi.IsInt64() || j.Lo.Sign() < 0 {
+				return nil, false
+			}
+			seen[v] = true
+			for k := j.Lo.Int64(); k <= j.Hi.Int64(); k++ {
+				if !seen[k] {
+					return nil, false
+				}
+			}
+			return j, true
+		}
+		if cur.Op != smt.OIte || len(cur.Args) != 3 {
+			return nil, false
+		}
+		k, ok := cur.Args[1].ConstInt64()
+		if !ok {
+			return nil, false
+		}
+		jj, kk, ok := eqVarConst(cur.Args[0])
+		if !ok || kk != k || (j != nil && jj != j) {
+			return nil, false
+		}
+		j = jj
+		seen[k] = true
+		cur = cur.Args[2]
+	}
+	return nil, false
+}
+
+// eqVarConst recognises the term smt.Eq(j, k) builds for a constant k.
+func eqVarConst(c *smt.Term) (*smt.Term, int64, bool) {
+	if c.Op != smt.OEq || len(c.Args) != 2 {
+		return nil, 0, false
+	}
+	if k, ok := c.Args[1].ConstInt64(); ok {
+		return c.Args[0], k, true
+	}
+	if k, ok := c.Args[0].ConstInt64(); ok {
+		return c.Args[1], k, true
+	}
+	return nil, 0, false
 }
 
 func (ex *Exec) indexAddr(c Value, i *smt.Term) Value {
